@@ -343,7 +343,8 @@ fn run_c15(sc: &Scenario, keep_log: bool) -> (Vec<Violation>, Outcome) {
                         let exists_now = d.exec.record_len(&f.req.key).is_some();
                         let stores = matches!(info.kind, Kind::Set | Kind::Add | Kind::Replace | Kind::Append | Kind::Prepend | Kind::Incr | Kind::Decr);
                         let was_expired = matches!(before_pres[0], crate::model::Presence::Expired | crate::model::Presence::Either | crate::model::Presence::Unknown);
-                        let collected = existed && was_expired && (!exists_now || (stores && ok)) && !matches!(info.kind, Kind::Delete | Kind::Flush | Kind::Set);
+                        // (a delete that answers 'not found' for a stored-but-expired record has collected it, too)
+                        let collected = existed && was_expired && (!exists_now || (stores && ok)) && !matches!(info.kind, Kind::Flush | Kind::Set) && (info.kind != Kind::Delete || st == status::NOT_FOUND);
                         let overwrote = existed && !collected && stores && ok && exists_now;
                         // a conditional store refused inside the inner store (CAS mismatch, or - where a server refuses
                         // a CAS-carrying store of a missing key - 'not found') after the policy layer had counted it
